@@ -44,6 +44,8 @@ pub struct Sem {
     pub jump_crosses_call: bool,
     // A bare `{ }` block swallows break/continue/return.
     pub block_swallows_jump: bool,
+    // `[..rest] := xs` binds `rest` to `xs` itself.
+    pub collect_aliases: bool,
     // Functions capture a copy of their defining environment.
     pub capture_by_value: bool,
     // `for` re-reads the container on every iteration instead of a snapshot.
@@ -53,12 +55,12 @@ pub struct Sem {
     pub continue_is_break: bool,
 }
 
-pub const VARIANTS: [&str; 18] = [
+pub const VARIANTS: [&str; 19] = [
     "dynamic_scope", "no_block_scope", "shared_iteration_frame", "assign_declares",
     "declare_assigns_outer", "assign_copies", "args_copy", "sum_reuses_left",
     "range_read_aliases", "spread_aliases", "this_sticky", "this_dropped_on_store",
     "this_dropped_on_pass", "jump_crosses_call", "block_swallows_jump", "for_live",
-    "continue_is_break", "capture_by_value",
+    "continue_is_break", "capture_by_value", "collect_aliases",
 ];
 
 impl Sem {
@@ -83,6 +85,7 @@ impl Sem {
             "for_live" => s.for_live = true,
             "continue_is_break" => s.continue_is_break = true,
             "capture_by_value" => s.capture_by_value = true,
+            "collect_aliases" => s.collect_aliases = true,
             _ => panic!("unknown variant {name}"),
         }
         s
@@ -596,7 +599,11 @@ impl Interp {
                     }
                     let x =
                         if *collect && i == n - 1 {
-                            SV::plain(Val::list(src[n - 1..].to_vec()))
+                            if self.sem.collect_aliases && n == 1 {
+                                SV::plain(v.v.clone())
+                            } else {
+                                SV::plain(Val::list(src[n - 1..].to_vec()))
+                            }
                         } else {
                             src[i].clone()
                         };
